@@ -272,6 +272,7 @@ class _Inliner:
         if m is None:
             return None
         self.temps: List[ast.stmt] = []
+        self.rebound: Dict[str, str] = {}
         if allow_temps and not _args_ok(h, m, body):
             # an argument with an effect that the helper reads more than once is evaluated once, into a local named after the
             # parameter, before the body (arguments are evaluated before the body anyway)
@@ -280,7 +281,12 @@ class _Inliner:
                 complex_ = any(isinstance(x, (ast.Call, ast.Await, ast.NamedExpr)) for x in ast.walk(a_))
                 rebound = any(isinstance(x, ast.Name) and x.id == p_ and isinstance(x.ctx, (ast.Store, ast.Del)) for st_ in body for x in ast.walk(st_))
                 if rebound:
-                    return None
+                    # a parameter the helper rebinds (`number += 1`) is a local of its own, initialised with the argument
+                    tmp = f'{p_}__{h.name.strip("_")}'  # type: ignore[attr-defined]
+                    self.temps.append(ast.copy_location(ast.Assign(targets=[ast.copy_location(ast.Name(id=tmp, ctx=ast.Store()), a_)], value=a_), a_))
+                    del m[p_]
+                    self.rebound[p_] = tmp
+                    continue
                 if complex_ and _uses(body, p_) > 1:
                     tmp = f'{p_}__{h.name.strip("_")}'  # type: ignore[attr-defined]
                     self.temps.append(ast.copy_location(ast.Assign(targets=[ast.copy_location(ast.Name(id=tmp, ctx=ast.Store()), a_)], value=a_), a_))
@@ -292,6 +298,7 @@ class _Inliner:
             m = dict(m)
         locs = _locals_of(body) - set(m)
         ren = {v: f'{v}__{h.name.strip("_")}' for v in locs}  # type: ignore[attr-defined]
+        ren.update(self.rebound)
         return body, m, ren
 
     def rewrite_function(self, fn: ast.AST, helpers: Dict[str, ast.AST], is_method: bool) -> None:
@@ -376,9 +383,12 @@ class _Inliner:
                                     self.count += 1
                                     self.names.append(h.name)  # type: ignore[attr-defined]
                                     continue
+                        prep = self._prepared(h, call, is_method, caller_locals, allow_temps=True) if prep is None else prep
+                        if prep is not None:
+                            hb, m, ren = prep
                             # block-value form: statements, then one final `return <expr>`
                             if hb and isinstance(hb[-1], ast.Return) and hb[-1].value is not None and not any(isinstance(x, ast.Return) for b in hb[:-1] for x in ast.walk(b)) and not neg and isinstance(st, (ast.Assign, ast.AnnAssign, ast.Return)):
-                                pre = subst(h, hb[:-1], m, ren)
+                                pre = [ast.fix_missing_locations(t_) for t_ in self.temps] + subst(h, hb[:-1], m, ren)
                                 fin = subst(h, [ast.Expr(value=hb[-1].value)], m, ren)[0].value  # type: ignore[attr-defined]
                                 out.extend(pre)
                                 setattr(holder, attr, ast.copy_location(fin, inner))
